@@ -338,9 +338,18 @@ def labelings(n: int, level: str) -> List[tuple]:
                     out.append(("", p, o))
         out.append(("x", ident, ident))
         out.append(("x", rev, rev))
-    elif level == "few":
+    elif level in ("few", "mix", "eo"):
         rot = tuple((i + 1) % n for i in ident)
-        out = [("", rev, ident), ("", ident, rev), ("x", rot, rev)]
+        # evens-then-odds: neighbours in BFS order get names far apart, so the name ranges of sibling loops / arms interleave
+        half = (n + 1) // 2
+        eo = tuple(i // 2 if i % 2 == 0 else half + i // 2 for i in ident)
+        oe = tuple((n // 2) + i // 2 if i % 2 == 0 else i // 2 for i in ident)
+        if level == "few":
+            out = [("", rev, ident), ("", ident, rev), ("x", rot, rev), ("", eo, ident)]
+        elif level == "eo":
+            out = [("", eo, ident)]
+        else:
+            out = [("", rev, ident), ("", eo, ident), ("", oe, rev)]
     elif level == "one":
         out = [("x", rev, rev)]
     return out
